@@ -54,6 +54,12 @@ func midnightGap(t time.Time, y, m, d int64) []any {
 	return []any{}
 }
 
+// localOffset: the offset of the process-local zone (time.Local as the host set it) at the instant of t, in seconds.
+func localOffset(t time.Time) int64 {
+	_, off := t.In(time.Local).Zone()
+	return int64(off)
+}
+
 func intDigits(v interface{}) []any {
 	d, ok := v.(*decimal.Big)
 	if !ok {
@@ -110,7 +116,7 @@ func recordTime(args []string) int {
 		if !ok {
 			return nil, time.Time{}, fmt.Errorf("date returned %T", v)
 		}
-		return mk("date", map[string]any{"y": y, "m": m, "d": d, "res": proj.TimeValue(t), "gap": midnightGap(t, y, m, d), "args": []any{y, m, d}}), t, nil
+		return mk("date", map[string]any{"y": y, "m": m, "d": d, "res": proj.TimeValue(t), "gap": midnightGap(t, y, m, d), "loff": localOffset(t), "args": []any{y, m, d}}), t, nil
 	}
 	fieldsEv := func(t time.Time) (map[string]any, error) {
 		dm := map[string]interface{}{"t": t}
@@ -288,6 +294,14 @@ func recordTime(args []string) int {
 	layouts := []string{"2006-01-02", "2006-01-02 15:04:05", "02/01/2006", "15:04", "20060102T150405"}
 	for i := 0; i < *n/2; i++ {
 		t := times[rng.Intn(len(times))]
+		if i%4 == 0 {
+			// times with a sub-millisecond part, some within half a millisecond of the next second / day / year: a layout
+			// renders the fields of the time, it does not round it
+			t = t.Add(time.Duration(rng.Intn(1000000)) * time.Nanosecond)
+			if i%8 == 0 {
+				t = time.Date(t.Year(), []time.Month{12, 2, 6}[rng.Intn(3)], []int{31, 28, 30}[rng.Intn(3)], 23, 59, 59, 999500000+rng.Intn(500000), t.Location())
+			}
+		}
 		l := layouts[rng.Intn(len(layouts))]
 		v, err := evalWith("timeFormat(t, l)", map[string]interface{}{"t": t, "l": l})
 		if err != nil {
@@ -306,7 +320,7 @@ func recordTime(args []string) int {
 				return fail(err)
 			}
 			rt, _ := v.(time.Time)
-			evs = append(evs, mk(fn, map[string]any{"t0": proj.TimeValue(t0.Truncate(time.Millisecond)), "res": proj.TimeValue(rt), "t1": proj.TimeValue(t1.Add(time.Millisecond)), "args": name}))
+			evs = append(evs, mk(fn, map[string]any{"t0": proj.TimeValue(t0.Truncate(time.Millisecond)), "res": proj.TimeValue(rt), "loff": localOffset(rt), "t1": proj.TimeValue(t1.Add(time.Millisecond)), "args": name}))
 		}
 	}
 	if err := writeEvents(*out, evs); err != nil {
